@@ -214,7 +214,9 @@ def gen_lens(rng, prof):
 def make_stream(rng, prof, read0, force_marker=False):
     lens = gen_lens(rng, prof)
     unterm = rng.random() < 0.35
-    if force_marker:
+    if force_marker:        # interactive sessions: at least 6 records, the last one a terminated non-empty marker
+        while len(lens) < 5:
+            lens.insert(0, rng.randint(0, 9))
         lens.append(rng.randint(6, 20))
         unterm = False
     recs = [rec_content(i + 1, n, read0) for i, n in enumerate(lens)]
@@ -473,10 +475,15 @@ def run(ctx):
     want = lambda k: not only or k in only.split(",")
     # (1) design: exhaustive model checking on small constants, ALL chunkings of the stream
     if want("mc"):
-        for mod, cfg in (("MC_Reader", ctx.pick("MC_Reader_quick.cfg", "MC_Reader.cfg")),
-                         ("MC_ChunkList", ctx.pick("MC_ChunkList_quick.cfg", "MC_ChunkList.cfg")),
-                         ("MC_ChunkList", "MC_ChunkList3.cfg")):
-            mc = ctx.mc(mod, cfg, timeout=1500, coverage=True, workers=min(MAXW, ctx.pick(8, 16)), label=cfg.replace(".cfg", ""))
+        # coverage statistics slow TLC down ~10x: the vacuity check runs on the small configurations, the large
+        # reader configuration of the thorough tier runs without
+        runs = [("MC_Reader", "MC_Reader_quick.cfg", True), ("MC_ChunkList", "MC_ChunkList_quick.cfg", True),
+                ("MC_ChunkList", "MC_ChunkList3.cfg", True)]
+        if not ctx.quick:
+            runs += [("MC_Reader", "MC_Reader.cfg", False), ("MC_ChunkList", "MC_ChunkList.cfg", False)]
+        for mod, cfg, cover in runs:
+            mc = ctx.mc(mod, cfg, timeout=2400, coverage=cover, workers=min(MAXW, ctx.pick(8, 16)),
+                        label=cfg.replace(".cfg", ""))
             dead = [a for a, n in mc.action_cov.items() if n == 0]
             if dead:
                 raise Infra("vacuous model %s: actions never taken: %s" % (cfg, dead))
